@@ -42,7 +42,8 @@ RULE = (
     "sim cases: all (instance, timeline) pairs, instance = operator x boundary/due time x parameter form x clock kind (x fallback / timeout "
     "observables); lastpair cases: all (duration, timeline) pairs, each running take_last and skip_last on the timeline and on every variant with "
     "one extra element at (earlier element + duration); timelines = every sequence of <=N on_next with consecutive gaps in {0,5,10,15} followed by "
-    "nothing, completion or error after every gap; non-trivial = the source emitted >=1 element and (the reference output differs from the "
+    "nothing, completion or error after every gap; element values: operators that never look at values get pairwise distinct positional values (thorough: <=4 elements, plus every word over two values for <=3 elements; the instances named in DEEP: every word over two values in both tiers, <=4 elements in thorough); timeout_with_mapper, whose mapper selects an observable by value: every word over two values (<=3; DEEP instances <=4 in thorough); "
+    "non-trivial = the source emitted >=1 element and (the reference output differs from the "
     "source's own events, or a same-instant tie was resolved, or (lastpair) some element has age = duration at completion or a variant exists); "
     "distinct = (instance, timeline)"
 )
@@ -183,9 +184,10 @@ class TimeoutWithMapper:
 class Inst:
     kind = "sim"
 
-    def __init__(self, iid, clock, build, model, extra=None, watch=(), first_gaps=None):
+    def __init__(self, iid, clock, build, model, extra=None, watch=(), first_gaps=None, values="pos", deep=False):
         self.iid, self.clock, self.build, self.model = iid, clock, build, model
         self.extra, self.watch, self.first_gaps = extra or {}, watch, first_gaps
+        self.values, self.deep = values, deep  # see timeref.instance_timelines
 
 
 class LastPair:
@@ -193,7 +195,7 @@ class LastPair:
 
     def __init__(self, form, d, clock):
         self.iid, self.form, self.d, self.clock = f"lastpair:{form}:{d}:{clock}", form, d, clock
-        self.first_gaps = (5,)
+        self.first_gaps, self.values, self.deep = (5,), "pos", True
 
 
 OTHERS = {"none": None, "z5C10": [(5, "N", "z"), (10, "C", None)], "z0": [(0, "N", "z")], "E5": [(5, "E", "E")]}
@@ -206,35 +208,42 @@ TIMEOUT_OBS = {
 }
 
 
+DEEP = {"take_with_time:rel:10:num", "skip_until_with_time:abs:10:num", "timeout:rel:10:z5C10:num", "timeout:rel:10:none:num",
+        "timeout_with_mapper:n10:n10:c15:none:num", "timeout_with_mapper:n10:sync:n10:z5C10:num"}
+
+
 def bounds(tier):
+    """(form, boundary/due/duration, clock) triples per operator family; twm = (first timeout, timeout observable of the two
+    alphabet values, fallback)."""
     if tier == "quick":
         return {
-            "N": 3, "alphabet": 2,
-            "window": [("rel", 10, "num"), ("rel", 25, "num"), ("td", 15, "num"), ("rel", 0, "num"), ("rel", 10, "dt")],
-            "until": [("rel", 10, "num"), ("abs", 10, "num"), ("abs", 25, "dt"), ("td", 15, "dt"), ("abs", 0, "num")],
-            "last": [("rel", 10, "num"), ("rel", 15, "num"), ("td", 10, "dt"), ("rel", 0, "num")],
-            "timeout": [("rel", 10, "num"), ("rel", 15, "num"), ("td", 10, "dt"), ("abs", 25, "num"), ("abs", 10, "dt")],
+            "N": 3,
+            "window": [("rel", 10, "num"), ("rel", 0, "num"), ("td", 15, "dt")],
+            "until": [("rel", 10, "num"), ("abs", 10, "num"), ("abs", 25, "dt")],
+            "last": [("rel", 10, "num"), ("td", 15, "dt"), ("rel", 0, "num")],
+            "timeout": [("rel", 10, "num"), ("abs", 25, "num"), ("td", 15, "dt")],
             "others": ("none", "z5C10"),
-            "twm_first": ("n10", "never"),
-            "twm_obs": ("n10", "c15", "sync"),
-            "twm_others": ("none", "z5C10"),
+            "twm": [("n10", ta, tb, "none") for ta in ("n10", "c15", "sync") for tb in ("n10", "c15", "sync")]
+            + [("n10", "n10", tb, "z5C10") for tb in ("n10", "c15", "sync")] + [("never", "n10", "c15", "none")],
         }
+    obs = ("n10", "c15", "sync", "never")
     return {
-        "N": 4, "alphabet": 2,
-        "window": [(f, d, c) for c in ("num", "dt") for f in ("rel", "td") for d in (0, 5, 10, 15, 25)],
-        "until": [(f, d, c) for c in ("num", "dt") for f in ("rel", "td", "abs") for d in (0, 10, 15, 25)],
-        "last": [(f, d, c) for c in ("num", "dt") for f in ("rel", "td") for d in (0, 5, 10, 15, 25)],
-        "timeout": [(f, d, c) for c in ("num", "dt") for f in ("rel", "td", "abs") for d in (0, 10, 15, 25)],
+        "N": 4,
+        "window": [("rel", d, "num") for d in (0, 5, 10, 15, 25)] + [("td", 10, "num"), ("rel", 10, "dt"), ("td", 0, "dt"), ("td", 15, "dt"), ("td", 25, "dt")],
+        "until": [("rel", 10, "num"), ("td", 15, "num")] + [("abs", d, "num") for d in (0, 10, 15, 25)]
+        + [("abs", 0, "dt"), ("abs", 10, "dt"), ("abs", 25, "dt"), ("rel", 15, "dt"), ("td", 10, "dt")],
+        "last": [("rel", d, "num") for d in (0, 5, 10, 15, 25)] + [("td", 10, "num"), ("rel", 10, "dt"), ("td", 15, "dt")],
+        "timeout": [("rel", d, "num") for d in (0, 10, 15, 25)] + [("abs", 10, "num"), ("abs", 25, "num"), ("td", 10, "num"),
+                                                                 ("rel", 10, "dt"), ("abs", 0, "dt"), ("abs", 15, "dt"), ("td", 15, "dt")],
         "others": ("none", "z5C10", "z0", "E5"),
-        "twm_first": ("n10", "never", "c15", "n5"),
-        "twm_obs": ("n10", "c15", "sync", "never"),
-        "twm_others": ("none", "z5C10"),
+        "twm": [(f, ta, tb, "none") for f in ("n10", "never", "c15", "n5") for ta in obs for tb in obs]
+        + [("n10", ta, tb, "z5C10") for ta in obs for tb in obs],
     }
 
 
 def seed_params(seed):
     rot = seed % 3
-    vals = (1 + 10 * rot, 2 + 10 * rot, 3 + 10 * rot)
+    vals = (1 + 10 * rot, 2 + 10 * rot, 3 + 10 * rot, 4 + 10 * rot)
     sub = (200, 300, 250)[rot]
     return vals, sub
 
@@ -284,44 +293,38 @@ def instances(tier, seed):
             yield Inst(f"timeout:{form}:{d}:{on}:{clock}", clock, build,
                        lambda tl, d=d, form=form, other=other: Timeout(tl, (sub + d) if form == "abs" else d, form == "abs", other),
                        extra=({"other": other} if other is not None else {}), watch=(("other",) if other is not None else ()))
-    for fn in b["twm_first"]:
-        for ta in b["twm_obs"]:
-            for tb in b["twm_obs"]:
-                for on in b["twm_others"]:
-                    if tier == "quick" and on != "none" and ta != b["twm_obs"][0]:
-                        continue
-                    other = OTHERS[on]
-                    first = TIMEOUT_OBS[fn]
-                    timeouts = {A: TIMEOUT_OBS[ta], B: TIMEOUT_OBS[tb]}
-                    extra = {"tfirst": first, f"t{A}": TIMEOUT_OBS[ta], f"t{B}": TIMEOUT_OBS[tb]}
-                    if other is not None:
-                        extra["other"] = other
+    for (fn, ta, tb, on) in b["twm"]:
+        other = OTHERS[on]
+        first = TIMEOUT_OBS[fn]
+        timeouts = {A: TIMEOUT_OBS[ta], B: TIMEOUT_OBS[tb]}
+        extra = {"tfirst": first, f"t{A}": TIMEOUT_OBS[ta], f"t{B}": TIMEOUT_OBS[tb]}
+        if other is not None:
+            extra["other"] = other
 
-                    def build(K, S, other=other):
-                        return S["src"].pipe(ops.timeout_with_mapper(S["tfirst"], lambda x: S[f"t{x}"], S["other"] if other is not None else None))
+        def build(K, S, other=other):
+            return S["src"].pipe(ops.timeout_with_mapper(S["tfirst"], lambda x: S[f"t{x}"], S["other"] if other is not None else None))
 
-                    yield Inst(f"timeout_with_mapper:{fn}:{ta}:{tb}:{on}:num", "num", build,
-                               lambda tl, first=first, timeouts=timeouts, other=other: TimeoutWithMapper(tl, first, timeouts, other),
-                               extra=extra, watch=(("other",) if other is not None else ()))
+        iid = f"timeout_with_mapper:{fn}:{ta}:{tb}:{on}:num"
+        yield Inst(iid, "num", build,
+                   lambda tl, first=first, timeouts=timeouts, other=other: TimeoutWithMapper(tl, first, timeouts, other),
+                   extra=extra, watch=(("other",) if other is not None else ()), values="alpha", deep=iid in DEEP)
     # defaults of timeout_with_mapper: no first timeout (never), no mapper (never)
     yield Inst("timeout_with_mapper:default:n10:c15:none:num", "num",
                lambda K, S: S["src"].pipe(ops.timeout_with_mapper(None, lambda x: S[f"t{x}"])),
                lambda tl: TimeoutWithMapper(tl, None, {A: TIMEOUT_OBS["n10"], B: TIMEOUT_OBS["c15"]}, None),
-               extra={f"t{A}": TIMEOUT_OBS["n10"], f"t{B}": TIMEOUT_OBS["c15"]})
+               extra={f"t{A}": TIMEOUT_OBS["n10"], f"t{B}": TIMEOUT_OBS["c15"]}, values="alpha")
     yield Inst("timeout_with_mapper:n10:nomapper:nomapper:none:num", "num",
                lambda K, S: S["src"].pipe(ops.timeout_with_mapper(S["tfirst"])),
                lambda tl: TimeoutWithMapper(tl, TIMEOUT_OBS["n10"], None, None), extra={"tfirst": TIMEOUT_OBS["n10"]})
 
 
 def all_cases(tier, seed):
-    b = bounds(tier)
     vals, _ = seed_params(seed)
     cache = {}
     for inst in instances(tier, seed):
-        key = inst.first_gaps
-        if key not in cache:
-            cache[key] = list(timeref.gap_timelines(b["N"], vals[: b["alphabet"]], GAPS, first_gaps=inst.first_gaps))
-        for tl in cache[key]:
+        if inst.kind == "sim" and inst.iid in DEEP:
+            inst.deep = True
+        for tl in timeref.instance_timelines(tier, inst.values, inst.deep, vals, GAPS, inst.first_gaps, cache):
             yield inst, tl
 
 
